@@ -418,6 +418,7 @@ type Input struct {
 	Large bool     `json:"large,omitempty"`
 	// Stress > 0: that many unsynchronised sessions (4 connections each); every stream is a case
 	Stress int `json:"stress,omitempty"`
+	Stream int `json:"stream,omitempty"` // which stream of the stress run this case is (information only)
 }
 
 func main() {
@@ -496,12 +497,12 @@ func main() {
 			if e == nil {
 				e = startEnv(o.Out)
 			}
-			for _, x := range stressStreams(e, r, in.Stress) {
+			for k, x := range stressStreams(e, r, in.Stress) {
 				dist["stress:streams"]++
 				if len(x.got) != len(x.sent) {
 					dist["stress:streams-short"]++
 				}
-				cases = append(cases, hx.Case{ID: id, Kind: "stress", Input: Input{Stress: 300},
+				cases = append(cases, hx.Case{ID: id, Kind: "stress", Input: Input{Stress: 300, Stream: k + 1},
 					Obs:  map[string]interface{}{"sent_len": len(x.sent), "read_len": len(x.got)},
 					Coq:  fmt.Sprintf("CT (mkTCase %s %s %s)", hx.CoqN(uint64(id)), coqB(x.sent), coqB(x.got))})
 				id++
